@@ -27,6 +27,8 @@ DOC_F = "query Q($s: Boolean!) { a { id @skip(if: $s) name } }"
 DOC_G = "{ ...RF color } fragment RF on Query { num a { ...AF } } fragment AF on A { id }"
 DOC_H = "{ ...RF } fragment RF on Query { color hello(n: 2) }"
 DOC_M = "query($s: Boolean = false) { x: num @skip(if: false) ...MF color } fragment MF on Query { x: num @skip(if: $s) }"
+DOC_V = "query A($t: Tag, $n: Int = 1) { hello(n: $n, t: $t) num } query B($t: Tag, $n: Int = 2) { hello(n: $n, t: $t) color }"
+SHARED_V = {"t": "tg"}   # one mapping object given to both requests (and to every run): the engine must treat it as read-only
 DOC_N = "query($p: Int, $x: Int!) { hello(p: {a: $p, c: [$x, 1]}) lst(xs: [$x], ps: [{a: $p}]) }"
 POOL = [
     # label, text, op, variables, faults, variant, ctx-kind
@@ -38,6 +40,8 @@ POOL = [
     ("nested-skip-false", DOC_F, None, {"s": False}, {}, 1, "scn"),
     ("root-fragment", DOC_G, None, None, {}, 1, "scn"),
     ("root-fragment-same-name-other-body", DOC_H, None, None, {}, 2, "scn"),
+    ("shared-variables-object-op-A", DOC_V, "A", SHARED_V, {}, 1, "scn"),
+    ("shared-variables-object-op-B", DOC_V, "B", SHARED_V, {}, 1, "scn"),
     ("nested-variable-1", DOC_N, None, {"p": 1, "x": 5}, {}, 1, "scn"),
     ("nested-variable-2", DOC_N, None, {"p": 2, "x": 6}, {}, 1, "scn"),
     ("merged-directives-false", DOC_M, None, {"s": False}, {}, 1, "scn"),
